@@ -30,6 +30,8 @@ EXPLANATION = (
 )
 TECHNIQUE += '; CFG must-pass of the per-shell correction'
 EXPLANATION += ' Added: (R7) in every basis-correction helper each iteration of the per-shell loop reaches the statement that corrects the coefficients (no continue/break path around it).'
+TECHNIQUE += '; symbolic evaluation of the norm expression'
+EXPLANATION += ' Added: (R8) the quantity whose deviation from 1 is compared with the threshold evaluates, on symbolic coefficients and overlap, to the quadratic form c^T S c for every orbital, the deviations are accumulated with max() and the verdict is `max deviation <= norm_threshold`.'
 TRUSTED = ["CPython ast parser", "copy.deepcopy / attrs.evolve return new objects"]
 
 
